@@ -57,9 +57,33 @@ def oracle(values, patience, tol, criterion, period=1, variances=None):
     return ("ran", None, None)
 
 
+def shared_evaluator():
+    """Several stoppers may watch one evaluator: each applies its own rule to the shared record."""
+    from qucumber.callbacks import EarlyStopping, MetricEvaluator
+    vals = [3.0, 2.0, 1.5, 1.4, 1.39, 1.389, 1.3889, 1.38889, 1.388889]
+    f = []
+    for (pa, ta, ca), (pb, tb, cb) in (((1, 0.0, "absolute"), (2, 0.02, "absolute")), ((3, 1e-9, "relative"), (1, 0.2, "absolute")), ((2, 0.5, "relative"), (2, 0.5, "relative"))):
+        ev = MetricEvaluator(1, {"m": lambda s: 0.0})
+        a, b = EarlyStopping(1, ta, pa, ev, "m", criterion=ca), EarlyStopping(1, tb, pb, ev, "m", criterion=cb)
+        wa, wb = oracle(vals, pa, ta, ca), oracle(vals, pb, tb, cb)
+        want = min([w[1] for w in (wa, wb) if w[0] == "stopped"], default=None)
+        st = _State()
+        got = None
+        for e, v in enumerate(vals, start=1):
+            ev.past_values.append((e, {"m": v}))
+            for cbk in (a, b):
+                cbk.on_epoch_end(st, e)
+            if st.stop_training:
+                got = e
+                break
+        if got != want:
+            f.append(({"two stoppers on one evaluator": [(pa, ta, ca), (pb, tb, cb)]}, ("stopped", got), ("stopped", want)))
+    return f
+
+
 def native_check(seed=0, quick=True):
     rng = np.random.default_rng(seed)
-    fails = []
+    fails = shared_evaluator()
     seqs = [[5, 1, 5, 1, 5, 1], [1.0] * 6, [3, 2, 1, 0.5, 0.5, 0.5, 0.5], [0.0, 0.0, 0.0, 0.0], [1, 0, 1, 0, 0, 0], [2, 2.05, 2.06, 2.061, 2.0611, 2.0611]]
     seqs += [list(np.round(rng.normal(size=7), 1)) for _ in range(4 if quick else 40)]
     for vals in seqs:
@@ -189,7 +213,7 @@ def replay(cfg, model, short):
             return {"reproduced": True, "failed_clauses": [("on_epoch_end on the solver's history", str(r))], "solver_model": {k: v for k, v in model.items() if k.startswith("@")}}
     f = native_check(0, True) + [(a, b, "same in both runs") for a, b in two_runs(0)] + [(a, b, "mixed periods") for a, b in mixed_periods()]
     if cfg.get("criterion"):
-        f = [x for x in f if x[0]["criterion"] == cfg["criterion"]] or f
+        f = [x for x in f if x[0].get("criterion") == cfg["criterion"]] or f
     return {"reproduced": bool(f), "failed_clauses": [(str(a), "got %s want %s" % (g, w)) for a, g, w in f[:3]], "solver_model": model}
 
 
